@@ -466,10 +466,19 @@ pub fn random_specs(case: &mut Case) -> (Vec<FileSpec>, Vec<PathBuf>) {
     }
     let allow_dup_names = case.allow("import_same_name_twice");
     for i in 0..n {
-        let k = case.ch.below(4);
+        // up to six lines; a third of them write the path of an earlier line of the file once more (same
+        // spelling), so that lines for two paths interleave (x, y, x, y) and are merged per path
+        let k = if case.ch.chance(1, 4) { 3 + case.ch.below(4) } else { case.ch.below(4) };
         for _ in 0..k {
-            let dangling = case.ch.chance(1, 20);
-            let target = case.ch.below(n);
+            let mut dangling = case.ch.chance(1, 20);
+            let mut target = case.ch.below(n);
+            let mut again: Option<usize> = None;
+            if !specs[i].imports.is_empty() && case.ch.chance(1, 3) {
+                let e = &specs[i].imports[case.ch.below(specs[i].imports.len())];
+                dangling = e.dangling;
+                target = e.target;
+                again = Some(e.spelling);
+            }
             let [a, b] = frag_names(target);
             let names = match case.ch.below(6) {
                 0 | 1 => None,
@@ -486,7 +495,10 @@ pub fn random_specs(case: &mut Case) -> (Vec<FileSpec>, Vec<PathBuf>) {
                     }
                 }
             };
-            let spelling = case.ch.below(6);
+            let spelling = match again {
+                Some(sp) => sp,
+                None => case.ch.below(6),
+            };
             // one literal path may not mix wildcard and specific imports (documented error of
             // resolve_operation_extensions), and a second wildcard for the same literal is an error
             let lit_of = |l: &ImportLine| -> String {
@@ -542,6 +554,9 @@ pub fn resolved_order(specs: &[FileSpec], paths: &[PathBuf], root: usize) -> Res
 /// document through cli/src/check.rs (its own index of documents). Exit 0 iff every file resolves and no
 /// resolved document holds two fragments of one name; exit 1 otherwise; never a crash.
 fn cli_case(case: &mut Case, base: &std::path::Path) -> CaseResult {
+    // how the command is started (working directory, --config-file spelling): drawn first so that it varies
+    let cli_style = case.ch.below(crate::cli::CLI_STYLES);
+    case.label(&format!("cli-style-{cli_style}"));
     use crate::cli::{run_cli, Project};
     let (specs, paths) = random_specs(case);
     let n = specs.len();
@@ -566,7 +581,7 @@ fn cli_case(case: &mut Case, base: &std::path::Path) -> CaseResult {
             }
         }
     }
-    let run = run_cli(&proj.dir, &["check", "--output-format", "json"]);
+    let run = crate::cli::run_cli_styled(&proj.dir, &["check", "--output-format", "json"], cli_style);
     let detail = json!({"files": files_json(&specs, &paths), "status": run.status, "stdout": run.stdout.chars().take(1200).collect::<String>(), "stderr": run.stderr.chars().take(400).collect::<String>()});
     proj.remove();
     case.evals(1);
